@@ -13,9 +13,9 @@ use std::sync::Mutex;
 use vmodel::par::par_for;
 use vmodel::{Reporter, Tier};
 
-const NAMES: [&str; 5] = ["en", "fr", "de", "en-US", "pt-BR"];
+const NAMES: [&str; 6] = ["en", "fr", "de", "en-US", "pt-BR", "pt-PT"];
 fn loc(i: usize) -> Locale {
-    [Locale::en, Locale::fr, Locale::de, Locale::en_US, Locale::pt_BR][i]
+    [Locale::en, Locale::fr, Locale::de, Locale::en_US, Locale::pt_BR, Locale::pt_PT][i]
 }
 fn idx(l: Locale) -> usize {
     NAMES.iter().position(|n| *n == l.as_str()).unwrap()
@@ -79,8 +79,9 @@ impl Model {
                 v.push(Op::Set(c, l));
                 v.push(Op::SetUntracked(c, l));
             }
-            v.push(Op::SetViaScope(c, set_locales[set_locales.len() - 1]));
-            v.push(Op::SetViaLookup(c, set_locales[0]));
+            // (these two write the two Portuguese locales: one language, different plural rules - 0 is `one` in pt-BR, `other` in pt-PT)
+            v.push(Op::SetViaScope(c, 5));
+            v.push(Op::SetViaLookup(c, 4));
             if n < max_ctx {
                 v.push(Op::SubProv(c, Init::None));
                 v.push(Op::SubProv(c, Init::Const(2)));
@@ -355,7 +356,7 @@ impl Real {
                     ("memo t_format_string!(number)", Memo::new(move |_| leptos_i18n::t_format_string!(ctx, 1234567.5f64, formatter: number).to_string())),
                     ("memo t_format_display!(list)", Memo::new(move |_| leptos_i18n::t_format_display!(ctx, ["A", "B", "C"], formatter: list(list_type: and)).to_string())),
                     ("memo get_locale hello", Memo::new(move |_| format!("hello-{}", ctx.get_locale().as_str()))),
-                    // the category of 0 is `one` in fr / pt-BR and `other` in en / de
+                    // the category of 0 is `one` in fr / pt-BR and `other` in en / de / pt-PT
                     ("memo t_plural!(0)", Memo::new(move |_| (leptos_i18n::t_plural!(ctx, count = || 0, one => "one", _ => "other"))().to_string())),
                     ("memo t_plural_ordinal!(2)", Memo::new(move |_| (leptos_i18n::t_plural_ordinal!(ctx, count = || 2, two => "two", one => "one", _ => "other"))().to_string())),
                     ("memo t_format!(number)", Memo::new(move |_| strip(leptos_i18n::t_format!(ctx, move || 1234567.5f64, formatter: number).into_view().to_html()))),
@@ -592,7 +593,7 @@ pub fn run(tier: Tier) -> i32 {
     rep.sample(json!({"history": format!("{probe:?}"), "snapshots": a}));
     let n_states = states.lock().unwrap().len();
     let mut cov = serde_json::Map::new();
-    cov.insert("rule".into(), json!(format!("every operation history of length <= {depth} over a tree of <= {max_ctx} contexts: set_locale / set_locale_untracked (fr, de) on any context, set through a doubly scoped view, sub-context creation under any context with no / constant / caller-wired initial locale - directly (init_i18n_subcontext_with_options in a child owner) through the generated <I18nSubContextProvider> component placed in the parent's owner, with provide_i18n_subcontext in a child owner, or inside a tracking scope (a Memo in a child owner that is read again after every step, as a reactive view closure is: a re-run replaces the sub-context by the one it builds) -, set_locale through a handle looked up with use_i18n() in a context's owner after everything created next to it, writes to a wired signal (changing and not changing its value), creation of accessor sets (t! closures with and without arguments and scoping, t_string!, tu_string!, t_display!, the format macros; a Memo + Effect pair, and one Memo per tracked accessor - t_string!, t_display!, t!, the scoped forms, t_format_string!, t_format_display!, t_format!, t_plural!, t_plural_ordinal!, get_locale - holding that accessor alone) and `poll` (run effects to quiescence - also absent, so both 'effects have run' and 'not yet' are explored); each history is replayed from scratch on a fresh Owner (stateless search) and after EVERY step every context, a fresh scoped view of it and every accessor made earlier is read; oracle: a map context -> last locale set (own sets and its wired signal only); states = distinct (context locales) snapshots reached")));
+    cov.insert("rule".into(), json!(format!("every operation history of length <= {depth} over a tree of <= {max_ctx} contexts: set_locale / set_locale_untracked (fr, de) on any context, set through a doubly scoped view (to pt-PT), sub-context creation under any context with no / constant / caller-wired initial locale - directly (init_i18n_subcontext_with_options in a child owner) through the generated <I18nSubContextProvider> component placed in the parent's owner, with provide_i18n_subcontext in a child owner, or inside a tracking scope (a Memo in a child owner that is read again after every step, as a reactive view closure is: a re-run replaces the sub-context by the one it builds) -, set_locale (to pt-BR: with pt-PT two locales of one language whose plural rules differ on 0) through a handle looked up with use_i18n() in a context's owner after everything created next to it, writes to a wired signal (changing and not changing its value), creation of accessor sets (t! closures with and without arguments and scoping, t_string!, tu_string!, t_display!, the format macros; a Memo + Effect pair, and one Memo per tracked accessor - t_string!, t_display!, t!, the scoped forms, t_format_string!, t_format_display!, t_format!, t_plural!, t_plural_ordinal!, get_locale - holding that accessor alone) and `poll` (run effects to quiescence - also absent, so both 'effects have run' and 'not yet' are explored); each history is replayed from scratch on a fresh Owner (stateless search) and after EVERY step every context, a fresh scoped view of it and every accessor made earlier is read; oracle: a map context -> last locale set (own sets and its wired signal only); states = distinct (context locales) snapshots reached")));
     cov.insert("exhaustive".into(), json!(true));
     cov.insert("states".into(), json!(n_states.max(1)));
     cov.insert("depth".into(), json!(depth));
